@@ -272,7 +272,7 @@ def _worker(args):
     prop_id, unit, seed, tier = args
     t0 = time.time()
     try:
-        sys.setrecursionlimit(10000)
+        sys.setrecursionlimit(20000)
         mod = importlib.import_module(f"pbt.props.{prop_id}")
         rec = Rec(prop_id, unit.get("name", "?"), mod)
         try:
